@@ -172,7 +172,8 @@ class JournalFileSymlinkLock(BaseJournalFileLock):
                 if err.errno == errno.EEXIST:
                     if self.grace_period is not None:
                         try:
-                            current_mtime = os.stat(self._lock_file).st_mtime
+                            # Watch the lock file itself, not the file the link points to.
+                            current_mtime = os.lstat(self._lock_file).st_mtime
                         except OSError:
                             continue
                         if current_mtime != mtime:
